@@ -201,7 +201,8 @@ class Builder:
                         raise Refusal(f"shape mismatch: argument {p} of {what} is {got}, expected {shp}")
             ret = tuple(subst.get(s, s) for s in k["ret"])
             return Node("call", [bound[p] for p in pnames], ret, name=k["lean"])
-        raise Refusal(f"call of {target} (not in the translated subset) in {what}")
+        why = getattr(self, "inline_failed", {}).get(target.rsplit(".", 1)[-1]) if target.startswith(self.module + ".") else None
+        raise Refusal(f"call of {target} (not in the translated subset) in {what}" + (f" — not expanded in place: {why}" if why else ""))
 
     # ---------------------------------------------------------------- functions
     def function(self, fn, shapes):
